@@ -117,7 +117,7 @@ func (o op) coq() string {
 	case kSetName:
 		return vgen.App("OSetName", vgen.HxS(o.Name))
 	}
-	return "OEnd"
+	return vgen.App("OEnd", vgen.N(uint64(o.TS)))
 }
 
 func (o op) String() string {
@@ -134,6 +134,9 @@ func (o op) String() string {
 		return fmt.Sprintf("SetStatus(%d, %q)", o.Code, o.Name)
 	case kSetName:
 		return fmt.Sprintf("SetName(%q)", o.Name)
+	}
+	if o.TS != 0 {
+		return fmt.Sprintf("End(WithTimestamp(%d))", o.TS)
 	}
 	return "End()"
 }
@@ -173,6 +176,68 @@ func linkCtx(tag int, ts bool) trace.SpanContext {
 	return trace.NewSpanContext(cfg)
 }
 
+// startOpts are the Tracer.Start options that seed the span.
+type startOpts struct {
+	Attrs, Attrs2 []attribute.KeyValue // one or two WithAttributes options
+	Links         []op                 // kAddLink entries, passed through WithLinks
+	TS            int64                // WithTimestamp (0: not given)
+	Kind          int                  // WithSpanKind value (-1: option not given)
+}
+
+func (so startOpts) coq() string {
+	var lks []string
+	for _, l := range so.Links {
+		lks = append(lks, "("+vgen.N(uint64(l.Ctx))+", "+vgen.Bool(l.HasTS)+", "+coqKVs(l.Attrs)+")")
+	}
+	kind := so.Kind
+	if kind < 0 {
+		kind = 0 // no option: SpanKindUnspecified
+	}
+	return vgen.App("S", coqKVs(append(append([]attribute.KeyValue{}, so.Attrs...), so.Attrs2...)), vgen.List(lks), vgen.N(uint64(so.TS)), vgen.N(uint64(kind)))
+}
+
+func (so startOpts) String() string {
+	var lk []string
+	for _, l := range so.Links {
+		lk = append(lk, l.String())
+	}
+	return fmt.Sprintf("Start(WithAttributes%s WithAttributes%s WithLinks[%s] WithTimestamp(%d) WithSpanKind(%d))", descKVs(so.Attrs), descKVs(so.Attrs2), strings.Join(lk, " "), so.TS, so.Kind)
+}
+
+func (so startOpts) options() []trace.SpanStartOption {
+	var out []trace.SpanStartOption
+	if so.Attrs != nil {
+		out = append(out, trace.WithAttributes(cloneKVs(so.Attrs)...))
+	}
+	if len(so.Links) > 0 {
+		var ls []trace.Link
+		for _, l := range so.Links {
+			ls = append(ls, trace.Link{SpanContext: linkCtx(l.Ctx, l.HasTS), Attributes: cloneKVs(l.Attrs)})
+		}
+		out = append(out, trace.WithLinks(ls...))
+	}
+	if so.Attrs2 != nil {
+		out = append(out, trace.WithAttributes(cloneKVs(so.Attrs2)...))
+	}
+	if so.TS != 0 {
+		out = append(out, trace.WithTimestamp(time.Unix(0, so.TS)))
+	}
+	if so.Kind >= 0 {
+		out = append(out, trace.WithSpanKind(trace.SpanKind(so.Kind)))
+	}
+	return out
+}
+
+// instant canonicalises a time: instants the harness supplied are within the
+// first millisecond after the epoch and are compared; wall-clock values are not (0).
+func instant(t time.Time) uint64 {
+	n := t.UnixNano()
+	if n > 0 && n < 1_000_000 {
+		return uint64(n)
+	}
+	return 0
+}
+
 // ---------------------------------------------------------------- driving the SDK
 
 type export struct {
@@ -185,6 +250,9 @@ type export struct {
 	EvDropped int
 	Links     []sdktrace.Link
 	LkDropped int
+	Kind      trace.SpanKind
+	Start     time.Time
+	End       time.Time
 }
 
 func (x export) coq() string {
@@ -201,18 +269,21 @@ func (x export) coq() string {
 		lks = append(lks, vgen.App("K", vgen.N(tag), vgen.Bool(l.SpanContext.TraceState().Len() > 0), coqKVs(l.Attributes), vgen.Nat(l.DroppedAttributeCount)))
 	}
 	return vgen.App("X", vgen.HxS(x.Name), vgen.Pair(vgen.N(uint64(x.Code)), vgen.HxS(x.Desc)), coqKVs(x.Attrs), vgen.Nat(x.Dropped),
-		vgen.List(evs), vgen.Nat(x.EvDropped), vgen.List(lks), vgen.Nat(x.LkDropped))
+		vgen.List(evs), vgen.Nat(x.EvDropped), vgen.List(lks), vgen.Nat(x.LkDropped),
+		vgen.N(uint64(x.Kind)), vgen.N(instant(x.Start)), vgen.N(instant(x.End)))
 }
 
 func fromRO(ro sdktrace.ReadOnlySpan) export {
 	st := ro.Status()
 	return export{Name: ro.Name(), Code: st.Code, Desc: st.Description, Attrs: ro.Attributes(), Dropped: ro.DroppedAttributes(),
-		Events: ro.Events(), EvDropped: ro.DroppedEvents(), Links: ro.Links(), LkDropped: ro.DroppedLinks()}
+		Events: ro.Events(), EvDropped: ro.DroppedEvents(), Links: ro.Links(), LkDropped: ro.DroppedLinks(),
+		Kind: ro.SpanKind(), Start: ro.StartTime(), End: ro.EndTime()}
 }
 
 func fromStub(s tracetest.SpanStub) export {
 	return export{Name: s.Name, Code: s.Status.Code, Desc: s.Status.Description, Attrs: s.Attributes, Dropped: s.DroppedAttributes,
-		Events: s.Events, EvDropped: s.DroppedEvents, Links: s.Links, LkDropped: s.DroppedLinks}
+		Events: s.Events, EvDropped: s.DroppedEvents, Links: s.Links, LkDropped: s.DroppedLinks,
+		Kind: s.SpanKind, Start: s.StartTime, End: s.EndTime}
 }
 
 func cloneKVs(kvs []attribute.KeyValue) []attribute.KeyValue {
@@ -226,24 +297,13 @@ func cloneKVs(kvs []attribute.KeyValue) []attribute.KeyValue {
 	return out
 }
 
-// runSpan applies the program to a fresh span. startLinks/startAttrs are passed as
-// Start options (the program's ops list already begins with their AddLink /
-// SetAttributes equivalents, in the order newRecordingSpan applies them).
-func runSpan(lim limits, name0 string, nStart int, ops []op) (exported, readback export, err error) {
+// runSpan starts a span with the given options and applies the program to it.
+func runSpan(lim limits, so startOpts, name0 string, ops []op) (exported, readback export, err error) {
 	exp := tracetest.NewInMemoryExporter()
 	tp := sdktrace.NewTracerProvider(sdktrace.WithSyncer(exp), sdktrace.WithRawSpanLimits(lim.sdk()), sdktrace.WithSampler(sdktrace.AlwaysSample()))
 	defer tp.Shutdown(context.Background())
-	var startOpts []trace.SpanStartOption
-	for _, o := range ops[:nStart] {
-		switch o.Kind {
-		case kAddLink:
-			startOpts = append(startOpts, trace.WithLinks(trace.Link{SpanContext: linkCtx(o.Ctx, o.HasTS), Attributes: cloneKVs(o.Attrs)}))
-		case kSetAttrs:
-			startOpts = append(startOpts, trace.WithAttributes(cloneKVs(o.Attrs)...))
-		}
-	}
-	_, sp := tp.Tracer("c04").Start(context.Background(), name0, startOpts...)
-	for _, o := range ops[nStart:] {
+	_, sp := tp.Tracer("c04").Start(context.Background(), name0, so.options()...)
+	for _, o := range ops {
 		switch o.Kind {
 		case kSetAttrs:
 			sp.SetAttributes(cloneKVs(o.Attrs)...)
@@ -273,7 +333,11 @@ func runSpan(lim limits, name0 string, nStart int, ops []op) (exported, readback
 		case kSetName:
 			sp.SetName(o.Name)
 		case kEnd:
-			sp.End()
+			if o.TS != 0 {
+				sp.End(trace.WithTimestamp(time.Unix(0, o.TS)))
+			} else {
+				sp.End()
+			}
 		}
 	}
 	sp.End() // the harness always ends the span (a no-op when the program already did)
@@ -427,7 +491,11 @@ func genOp(r *vgen.Rand, fresh *int) op {
 	case 18:
 		return op{Kind: kSetName, Name: vgen.Pick(r, []string{"n1", "n2", ""})}
 	}
-	return op{Kind: kEnd}
+	o := op{Kind: kEnd}
+	if r.Bool() {
+		o.TS = int64(r.Range(1, 999))
+	}
+	return o
 }
 
 func genLimits(r *vgen.Rand) limits {
@@ -443,28 +511,48 @@ func genLimits(r *vgen.Rand) limits {
 }
 
 type program struct {
-	Lim    limits
-	Name0  string
-	NStart int
-	Ops    []op
+	Lim   limits
+	Start startOpts
+	Name0 string
+	Ops   []op
+}
+
+// genStart: start attributes from the same key pool as later SetAttributes
+// calls (so they collide across the capacity boundary), more start links than
+// small link limits hold, the ignored-empty-link shape, timestamps, all span kinds.
+func genStart(r *vgen.Rand, fresh *int) startOpts {
+	so := startOpts{Kind: -1}
+	if r.Chance(1, 2) {
+		return so
+	}
+	if r.Chance(2, 3) {
+		so.Attrs = genKVs(r, 7, fresh)
+		if r.Chance(1, 3) {
+			so.Attrs2 = genKVs(r, 4, fresh)
+		}
+	}
+	if r.Chance(1, 2) {
+		for i := r.Range(1, 6); i > 0; i-- {
+			l := op{Kind: kAddLink, Ctx: r.Intn(6), HasTS: r.Chance(1, 6), Attrs: genKVs(r, 4, fresh)}
+			if r.Chance(1, 5) {
+				l.Ctx, l.Attrs = 0, nil
+			}
+			so.Links = append(so.Links, l)
+		}
+	}
+	if r.Chance(1, 2) {
+		so.TS = int64(r.Range(1, 999))
+	}
+	if r.Chance(2, 3) {
+		so.Kind = r.Intn(9) // 0 unspecified, 1..5 valid, 6..8 unknown
+	}
+	return so
 }
 
 func genProgram(r *vgen.Rand, maxOps int) program {
 	p := program{Lim: genLimits(r), Name0: vgen.Pick(r, []string{"span", "", "s"})}
 	fresh := 0
-	// start options: links first, then attributes (as newRecordingSpan applies them)
-	if r.Chance(1, 4) {
-		for i := r.Intn(3); i > 0; i-- {
-			p.Ops = append(p.Ops, op{Kind: kAddLink, Ctx: r.Intn(4), HasTS: r.Chance(1, 6), Attrs: genKVs(r, 3, &fresh)})
-		}
-	}
-	if r.Chance(1, 4) {
-		kvs := genKVs(r, 6, &fresh)
-		if len(kvs) > 0 {
-			p.Ops = append(p.Ops, op{Kind: kSetAttrs, Attrs: kvs})
-		}
-	}
-	p.NStart = len(p.Ops)
+	p.Start = genStart(r, &fresh)
 	n := 0
 	switch r.Intn(10) {
 	case 0, 1, 2:
@@ -484,7 +572,7 @@ func genProgram(r *vgen.Rand, maxOps int) program {
 
 // bigProgram: enough distinct keys / events / links to cross the default 128 limits.
 func bigProgram(r *vgen.Rand) program {
-	p := program{Lim: limits{Len: vgen.Pick(r, []int{-1, 128}), Attrs: 128, Events: 128, Links: 128, EvAttrs: 128, LkAttrs: 128}, Name0: "big"}
+	p := program{Lim: limits{Len: vgen.Pick(r, []int{-1, 128}), Attrs: 128, Events: 128, Links: 128, EvAttrs: 128, LkAttrs: 128}, Name0: "big", Start: startOpts{Kind: -1}}
 	fresh := 0
 	mk := func(n, off int) []attribute.KeyValue {
 		kvs := make([]attribute.KeyValue, n)
@@ -517,7 +605,7 @@ func main() {
 	o := vgen.ParseFlags()
 	r := vgen.NewRand(o.Seed).Fork() // Fork: NewRand(s+1) is NewRand(s) advanced by one draw (splitmix increment = seed multiplier); the fork decorrelates seeds
 	w := vgen.NewWriter(o.Out, "Lib.Utf8 C04.Spec C04.Model C04.Corr", "case", 200)
-	w.Rule = "programs of span API calls (Start options, SetAttributes, AddEvent, RecordError, AddLink, SetStatus, SetName, End) over a 6-key pool with " +
+	w.Rule = "programs of span API calls (Start options WithAttributes/WithLinks/WithTimestamp/WithSpanKind seeding the span, SetAttributes, AddEvent, RecordError, AddLink, SetStatus, SetName, End) over a 6-key pool with " +
 		"invalid/duplicate/fresh keys under limits from {-1,0,1,2,3,5,128}, observed at the in-memory exporter and through the ended span's accessors; " +
 		"string attribute values from a UTF-8 piece alphabet (valid 1-4 byte characters, U+FFFD, stray/truncated/overlong/surrogate bytes) under value-length limits; " +
 		"a span case is non-trivial when some limit dropped, de-duplicated or truncated something or a call came after End; a truncate case when the value exceeded the limit; distinct = distinct Coq case terms"
@@ -534,21 +622,18 @@ func main() {
 	addProgram := func(p program, kind string) {
 		var od []string
 		for i, x := range p.Ops {
-			s := x.String()
-			if i < p.NStart {
-				s = "Start option: " + s
-			}
-			od = append(od, s)
+			_ = i
+			od = append(od, x.String())
 		}
-		desc := map[string]any{"limits": p.Lim, "name": p.Name0, "ops": od}
+		desc := map[string]any{"limits": p.Lim, "start": p.Start.String(), "name": p.Name0, "ops": od}
 		guard(desc, func() {
-			ex, rb, err := runSpan(p.Lim, p.Name0, p.NStart, p.Ops)
+			ex, rb, err := runSpan(p.Lim, p.Start, p.Name0, p.Ops)
 			if err != nil {
 				w.Violation(err.Error(), desc)
 				return
 			}
 			var ops []string
-			offered, evs, lks, afterEnd, ended := 0, 0, 0, false, false
+			offered, evs, lks, afterEnd, ended := len(p.Start.Attrs)+len(p.Start.Attrs2), 0, len(p.Start.Links), false, false
 			for _, x := range p.Ops {
 				ops = append(ops, x.coq())
 				if ended {
@@ -567,7 +652,8 @@ func main() {
 			}
 			nontrivial := ex.Dropped > 0 || rb.EvDropped > 0 || rb.LkDropped > 0 || afterEnd || len(ex.Attrs) < offered
 			desc["exported"] = map[string]any{"attrs": descKVs(ex.Attrs), "dropped": ex.Dropped, "events": len(ex.Events), "dropped_events": ex.EvDropped,
-				"links": len(ex.Links), "dropped_links": ex.LkDropped, "status": fmt.Sprintf("%d %q", ex.Code, ex.Desc), "name": ex.Name}
+				"links": len(ex.Links), "dropped_links": ex.LkDropped, "status": fmt.Sprintf("%d %q", ex.Code, ex.Desc), "name": ex.Name,
+				"kind": int(ex.Kind), "start": instant(ex.Start), "end": instant(ex.End)}
 			w.Tally(fmt.Sprintf("span:ops<=%d", (len(p.Ops)/10+1)*10))
 			if ex.Dropped > 0 {
 				w.Tally("span:attrs-dropped")
@@ -582,7 +668,20 @@ func main() {
 				w.Tally("span:calls-after-End")
 			}
 			w.Tally(fmt.Sprintf("span:attr-limit=%d", p.Lim.Attrs))
-			term := vgen.App("CSpan", p.Lim.coq(), vgen.HxS(p.Name0), vgen.List(ops), ex.coq(), rb.coq())
+			if len(p.Start.Attrs)+len(p.Start.Attrs2) > 0 {
+				w.Tally("start:attributes")
+			}
+			if len(p.Start.Links) > 0 {
+				w.Tally("start:links")
+				if p.Lim.Links >= 0 && len(p.Start.Links) > p.Lim.Links {
+					w.Tally("start:links>limit")
+				}
+			}
+			if p.Start.TS != 0 {
+				w.Tally("start:timestamp")
+			}
+			w.Tally(fmt.Sprintf("start:kind=%d", p.Start.Kind))
+			term := vgen.App("CSpan", p.Lim.coq(), p.Start.coq(), vgen.HxS(p.Name0), vgen.List(ops), ex.coq(), rb.coq())
 			w.Add(term, desc, kind, nontrivial)
 		})
 	}
@@ -658,7 +757,13 @@ func main() {
 		// F-C04-2 / F-C04-3 (fixed by 543ed08): limit 0 => the exported dropped counters must be exact
 		{Lim: limits{-1, -1, 0, 0, -1, -1}, Name0: "s", Ops: []op{{Kind: kAddEvent, Name: "e", TS: 1}, {Kind: kAddEvent, Name: "e", TS: 2}, {Kind: kAddLink, Ctx: 1}}},
 		{Lim: limits{-1, -1, 0, -1, -1, -1}, Name0: "s", Ops: []op{{Kind: kRecordError, Name: "boom", TS: 1}}},
-		{Lim: limits{-1, -1, -1, 0, -1, -1}, Name0: "s", NStart: 1, Ops: []op{{Kind: kAddLink, Ctx: 2, Attrs: []attribute.KeyValue{i1}}}},
+		{Lim: limits{-1, -1, -1, 0, -1, -1}, Name0: "s", Start: startOpts{Kind: -1, Links: []op{{Kind: kAddLink, Ctx: 2, Attrs: []attribute.KeyValue{i1}}}}},
+		// start attributes colliding with later SetAttributes across the capacity boundary; more start links than the limit;
+		// unknown span kind; start / end instants; second End ignored
+		{Lim: limits{-1, 2, -1, 1, -1, 1}, Name0: "s",
+			Start: startOpts{Kind: 7, TS: 5, Attrs: []attribute.KeyValue{attribute.Int("a", 1), attribute.Int("b", 2)}, Attrs2: []attribute.KeyValue{attribute.Int("c", 3), attribute.Int("a", 4)},
+				Links: []op{{Kind: kAddLink, Ctx: 1}, {Kind: kAddLink, Ctx: 0}, {Kind: kAddLink, Ctx: 2, Attrs: []attribute.KeyValue{i1, i1}}}},
+			Ops: []op{{Kind: kSetAttrs, Attrs: []attribute.KeyValue{attribute.Int("b", 5), attribute.Int("d", 6)}}, {Kind: kEnd, TS: 9}, {Kind: kEnd, TS: 12}}},
 		// duplicates straddling the capacity boundary, update when full, invalid in both paths
 		{Lim: limits{-1, 2, -1, -1, -1, -1}, Name0: "s", Ops: []op{
 			{Kind: kSetAttrs, Attrs: []attribute.KeyValue{attribute.Int("a", 1), attribute.Int("a", 2)}},
